@@ -7,6 +7,8 @@ from .mirtab import Undecided
 from . import rules_scancode as RS
 from . import rules_ps2 as RP
 from . import rules_event as RE
+from . import rules_wiring as RW
+from . import rules_layout as RL
 
 TRUSTED_COMMON = [
     'rustc nightly: MIR construction, type checking and callee resolution (Instance::try_resolve)',
@@ -53,7 +55,53 @@ def c14(ctx, rep, tier):
     RE.check_decoding(ctx, rep, tier)
 
 
+def c17(ctx, rep, tier):
+    RW.check_anylayout(ctx, rep, tier)
+
+
+def c18(ctx, rep, tier):
+    RW.check_keyboard(ctx, rep, tier)
+
+
+def c03(ctx, rep, tier):
+    RL.check_characters(ctx, rep, tier)
+
+
+def c09(ctx, rep, tier):
+    RL.check_ctrl(ctx, rep, tier)
+
+
+def c10(ctx, rep, tier):
+    RL.check_caps(ctx, rep, tier)
+
+
+def c11(ctx, rep, tier):
+    RL.check_groups(ctx, rep, tier)
+
+
+def c12(ctx, rep, tier):
+    RL.check_ascii(ctx, rep, tier)
+
+
+def c15(ctx, rep, tier):
+    RL.check_numpad(ctx, rep, tier)
+
+
+def c16(ctx, rep, tier):
+    RL.check_raw(ctx, rep, tier)
+
+
+LT = 'MIR decision-table extraction of every KeyboardLayout impl (value-set abstract interpretation, Us104Key fall-through and Modifiers predicates inlined); '
 RULES = {
+    'C03': (c03, 'other', LT + 'agreement of the level-selecting cells with frozen per-standard reference tables'),
+    'C09': (c09, 'proof', LT + 'relational rule between the Map and Ignore tables and the layout\'s own letter assignment (no oracle)'),
+    'C10': (c10, 'proof', LT + 'relational rule between CapsLock-on and CapsLock-off cells (no oracle)'),
+    'C11': (c11, 'proof', LT + 'constancy on the 32 abstract modifier classes; truth tables of the five predicates'),
+    'C12': (c12, 'proof', LT + 'coverage of U+0020..U+007E by the three plain levels'),
+    'C15': (c15, 'proof', LT + 'pinned outputs of the 17 numpad and 6 editing keys in every state'),
+    'C16': (c16, 'proof', LT + 'raw-key identity rule on the 52 character-less keys and on every RawKey leaf'),
+    'C17': (c17, 'proof', 'call-site rule on the two delegating impls with inner layouts opaque: resolved-callee identity per variant, argument pass-through, result pass-through; sibling agreement'),
+    'C18': (c18, 'proof', 'per-path wiring rule on the generic Keyboard<L,S> methods with stage calls opaque (call sequence, receivers by place identity, returned value) + mutable-footprint (isolation) check'),
     'C04': (c04, 'proof', 'per-path frame/effect rule on the generic process_keyevent MIR (one-step transition of each flag) + who-may-write scan; induction over event histories'),
     'C14': (c14, 'proof', 'per-path rule on the generic process_keyevent MIR with the layout call opaque: call-site argument provenance (live &self.modifiers, self.handle_ctrl, &self.layout) and returned value'),
     'C05': (c05, 'proof', 'MIR decision-list extraction of add_word over all 11-bit words (value-set abstract interpretation) compared with the frame specification'),
